@@ -18,13 +18,13 @@ CHECK = dict(
     ],
     units=[
         dict(name="cloner", dir="internal/dnsmsg", src="C07/cloner", runs=[
-            dict(name="sequential", run="^TestVerifC07Cloner$", quick=2500, thorough=150000, shards_quick=2, shards_thorough=6, env=_env),
-            dict(name="concurrent", run="^TestVerifC07ClonerConcurrent$", quick=80, thorough=4000, shards_thorough=4, race=True, env=_env),
+            dict(name="sequential", run="^TestVerifC07Cloner$", quick=2500, thorough=78000, shards_quick=2, shards_thorough=6, env=_env),
+            dict(name="concurrent", run="^TestVerifC07ClonerConcurrent$", quick=80, thorough=2000, shards_thorough=4, race=True, env=_env),
         ]),
         dict(name="stack", dir="internal/dnssvc", src="C07/stack", runs=[
-            dict(name="sequential", run="^TestVerifC07StackSequential$", quick=3000, thorough=150000, shards_thorough=6, env=_env),
-            dict(name="concurrent", run="^TestVerifC07StackConcurrent$", quick=2000, thorough=60000, shards_quick=2, shards_thorough=6, env=_env),
-            dict(name="concurrent-race", run="^TestVerifC07StackConcurrent$", quick=250, thorough=12000, shards_thorough=4, race=True, env=_env),
+            dict(name="sequential", run="^TestVerifC07StackSequential$", quick=3000, thorough=120000, shards_thorough=6, env=_env),
+            dict(name="concurrent", run="^TestVerifC07StackConcurrent$", quick=2000, thorough=48000, shards_quick=2, shards_thorough=6, env=_env),
+            dict(name="concurrent-race", run="^TestVerifC07StackConcurrent$", quick=250, thorough=8000, shards_thorough=4, race=True, env=_env),
         ]),
     ],
 )
